@@ -443,6 +443,7 @@ func writeEvidence(prop, tier string, seed int, spec *CheckSpec, results []*Harn
 	}
 	cov := map[string]interface{}{}
 	totalPaths, nontriv, oblig, dischargedSolver, dischargedRewrite, unknown := 0, 0, 0, 0, 0, 0
+	solverPaths, normalised := 0, 0
 	var solverS float64
 	queries := map[string]int{"total": 0, "sat": 0, "unsat": 0, "unknown": 0}
 	fns := map[string]*fnEnc{}
@@ -451,7 +452,8 @@ func writeEvidence(prop, tier string, seed int, spec *CheckSpec, results []*Harn
 	witnesses := map[string]int{}
 	for _, r := range results {
 		totalPaths += r.TotalPaths
-		nontriv += r.NontrivPaths
+		nontriv += r.SymbolicPaths
+		solverPaths += r.NontrivPaths
 		solverS += r.SolverS
 		queries["total"] += r.Solver.Queries
 		queries["sat"] += r.Solver.Sat
@@ -459,9 +461,10 @@ func writeEvidence(prop, tier string, seed int, spec *CheckSpec, results []*Harn
 		queries["unknown"] += r.Solver.Unknown
 		for id, a := range r.Asserts {
 			_ = id
-			oblig += a.Discharged + a.Trivial + a.Violated + a.Unknown
+			oblig += a.Discharged + a.Trivial + a.Normalised + a.Violated + a.Unknown
 			dischargedSolver += a.Discharged
-			dischargedRewrite += a.Trivial
+			dischargedRewrite += a.Trivial + a.Normalised
+			normalised += a.Normalised
 			unknown += a.Unknown
 		}
 		for n, c := range r.Functions {
@@ -502,7 +505,9 @@ func writeEvidence(prop, tier string, seed int, spec *CheckSpec, results []*Harn
 	cov["explanation"] = fmt.Sprintf("Bounded symbolic execution of the real code (go/ssa of /repo's working tree, rebuilt on this run) into SMT bit-vector terms; %d paths explored over %d harness run(s); every path's assertions were decided for ALL values of the symbolic inputs on that path: %d obligations closed by z3 (unsat of pc ∧ ¬assertion), %d closed by the engine's sound term normaliser (assertion folded to true), %d unknown. Case splits (Choose) enumerate shapes exhaustively within the stated bounds; nothing outside the bounds is claimed.", totalPaths, len(results), dischargedSolver, dischargedRewrite, unknown)
 	cov["evaluations"] = totalPaths
 	cov["distinct_nontrivial"] = nontriv
-	cov["rule"] = "one evaluation = one explored path (a distinct sequence of case-split / branch decisions, so paths are distinct by construction); a path is non-trivial when at least one of its assertions contained symbolic variables after normalisation and was discharged by the SMT solver"
+	cov["rule"] = "one evaluation = one explored path (a distinct sequence of case-split / branch decisions, so paths are distinct by construction); a path is non-trivial when at least one of its assertions ranged over symbolic operands and was decided for all their values - either discharged by the SMT solver (pc AND NOT assertion unsat) or folded to true by the engine's sound term normaliser (e.g. payload equality after xor cancellation); paths whose assertions involved only concrete values are trivial"
+	cov["paths_with_solver_discharged_assertions"] = solverPaths
+	cov["assertions_normalised_over_symbolic_operands"] = normalised
 	cov["samples"] = samples
 	cov["obligations"] = oblig
 	cov["discharged"] = dischargedSolver + dischargedRewrite
